@@ -303,7 +303,7 @@ def Stable (o : Opts) (H : Hier) (u : TUnit) : Prop :=
 
 theorem optimize_eq_fold (o : Opts) (deps abcs : Hier) (u : TUnit) :
     optimize o deps abcs u = (passesOf o (pipelineHier o deps abcs u)).foldl (fun w P => P.runUnit w) u := by
-  unfold optimize stageD stageC stageB stageA passesOf
+  unfold optimize stageD stageD2 stageD1 stageC stageB stageA passesOf
   cases o.hasDeps <;> cases o.lossy <;> cases o.removeMutable <;> cases o.canDoLookup <;>
     cases (o.maxUnion != 0) <;> simp
 
